@@ -121,6 +121,8 @@ def translator_validation(h, mir, native, seed, n_cases, log):
                 outs.append(ctx.final_outputs)
         if npaths > 1 and not allow_forks:
             raise Unsupported('translator validation: concrete run forked on %r %r' % (shape, inputs))
+        if not outs and not panics:
+            continue   # the case does not satisfy the harness precondition (every path infeasible)
         nat = h.native_outputs(native, shape, inputs)
         if 'panic' in nat or 'timeout' in nat:
             if not panics:
